@@ -11,6 +11,7 @@ import (
 	"os"
 	"path/filepath"
 	"sort"
+	"strconv"
 	"strings"
 	"sync"
 	"time"
@@ -445,6 +446,7 @@ func (x *Exec) run(st *State) {
 			args := x.callArgs(st, fr, &i.Call)
 			fr.defers = append(fr.defers, deferred{call: &i.Call, args: args, pos: i})
 			x.callSite(st, fr, "defer", x.calleeName(st, fr, &i.Call), args, nil, "before", i)
+			x.addEvent(st, "defer", x.calleeName(st, fr, &i.Call), args)
 		default:
 			x.step(st, fr, instr)
 			fr.pc++
@@ -459,9 +461,14 @@ func (x *Exec) enter(st *State, fr *Frame, to *ssa.BasicBlock) bool {
 	if body, isHead := li.body[to]; isHead {
 		ord := li.ord[to]
 		var spec *LoopSpec
-		root := len(st.frames) == 1
-		if root && fr.contract != nil {
-			spec = fr.contract.Loops[ord]
+		if len(st.frames) == 1 && fr.contract != nil {
+			spec = fr.contract.Loops[strconv.Itoa(ord)]
+		} else if x.fc != nil && len(st.frames) > 1 {
+			// a closure of the function under verification running as a callback: "$k.N"
+			rootName := st.frames[0].fn.String()
+			if name := fr.fn.String(); strings.HasPrefix(name, rootName+"$") {
+				spec = x.fc.Loops[name[len(rootName):]+"."+strconv.Itoa(ord)]
+			}
 		}
 		where := fmt.Sprintf("loop %d of %s", ord, fr.fn.Name())
 		if body[from] {
@@ -683,6 +690,15 @@ func (x *Exec) step(st *State, fr *Frame, instr ssa.Instruction) {
 		if a.K != KPtr {
 			x.unsupported("store through non-pointer value")
 			return
+		}
+		if name := storeName(i.Addr); name != "" && x.fc != nil && x.fc.wantsStore(name) {
+			// stores to named variables and fields are effects that call-site assertions can guard
+			base := Val{K: KNil}
+			if fa, ok := i.Addr.(*ssa.FieldAddr); ok {
+				base = x.val(st, fr, fa.X)
+			}
+			x.callSite(st, fr, "store", "store:"+name, []Val{x.convertTo(st, v, i.Val.Type()), base}, nil, "before", i)
+			x.addEvent(st, "store", "store:"+name, []Val{x.convertTo(st, v, i.Val.Type()), base})
 		}
 		x.storePtr(st, a.P, i.Val.Type(), x.convertTo(st, v, i.Val.Type()))
 	case *ssa.UnOp:
@@ -1625,6 +1641,34 @@ func addressEscapes(a *ssa.Alloc) bool {
 			}
 		case *ssa.MakeClosure, *ssa.DebugRef:
 		default:
+			return true
+		}
+	}
+	return false
+}
+
+// storeName: the source name of the variable or field a Store writes ("" for temporaries).
+func storeName(addr ssa.Value) string {
+	switch a := addr.(type) {
+	case *ssa.Alloc:
+		return a.Comment
+	case *ssa.FreeVar:
+		return a.Name()
+	case *ssa.FieldAddr:
+		if stt, ok := under(deref(a.X.Type())).(*types.Struct); ok {
+			return stt.Field(a.Field).Name()
+		}
+	case *ssa.Global:
+		return a.Name()
+	}
+	return ""
+}
+
+// wantsStore: some clause of the contract mentions a store to this name (stores are only recorded
+// as events when asked for, they are far too frequent otherwise).
+func (fc *FuncContract) wantsStore(name string) bool {
+	for _, n := range fc.StoreNames {
+		if n == name {
 			return true
 		}
 	}
